@@ -33,6 +33,7 @@ def run(prog, chk):
     ]
     chk.not_decided += ["index arithmetic of marker placement", "GSUB byte identity", "feaLib's asFea() round trip"]
     chk.decided += ["a generated feature is inserted as its own top-level block; a user's block only ever loses statements in _insert (R17.9, shared with C20)"]
+    chk.decided += ["what the user's GDEF table defines (glyph classes; ligature carets by position or by index - classes read from fontTools) is not generated again (R17.10)"]
     chk.guard(r171, prog, chk)
     chk.guard(r172, prog, chk)
     chk.guard(r173, prog, chk)
@@ -42,6 +43,7 @@ def run(prog, chk):
     chk.guard(r177, prog, chk)
     chk.guard(r178, prog, chk)
     chk.guard(check_generated_blocks_top_level, prog, chk, "R17.9")
+    chk.guard(r1710, prog, chk)
 
 
 # ----------------------------------------------------------------------------- R17.1
@@ -561,7 +563,50 @@ def check_generated_blocks_top_level(prog, chk, rule):
     chk.minimum(rule, 2)
 
 
+
+# ----------------------------------------------------------------------------- R17.10
+def r1710(prog, chk):
+    """What the user's own `table GDEF` block defines is not generated again: glyph class definitions when it has a
+    GlyphClassDef statement, ligature carets when it has ANY of feaLib's ligature-caret statements (by position or by
+    contour-point index).  The set of caret statement classes is read from fontTools.feaLib.ast, not frozen here."""
+    from ..core.index import external_module
+    ix = prog.ix
+    sc = ix.get_method("ufo2ft.featureWriters.gdefFeatureWriter.GdefFeatureWriter", "setContext", own=True)
+    fea = external_module("fontTools.feaLib.ast")
+    caret_classes = {n.name for n in fea.body if isinstance(n, ast.ClassDef) and n.name.startswith("LigatureCaret") and n.name.endswith("Statement")}
+    need(len(caret_classes) >= 2, f"fontTools.feaLib.ast: ligature caret statement classes not found ({sorted(caret_classes)})")
+    want = {"LigatureCarets": caret_classes, "GlyphClassDefs": {"GlyphClassDefStatement"}}
+    discards = [c for c in A.body_nodes(sc.node) if isinstance(c, ast.Call) and isinstance(c.func, ast.Attribute) and c.func.attr in ("discard", "remove", "difference_update")
+                and c.args and isinstance(c.args[0], ast.Constant) and c.args[0].value in want]
+    seen = {}
+    for c in discards:
+        item = c.args[0].value
+        named = set()
+        typed = False
+        for g in may_conds(prog, sc, c):
+            if g.polarity is not True:
+                continue  # a class named in a test that must FAIL on the way here does not lead to the discard
+            t_ = g.test
+            for x in ast.walk(t_):
+                if isinstance(x, ast.Attribute) and x.attr.endswith("Statement"):
+                    named.add(x.attr)
+                    typed = True
+                elif isinstance(x, ast.Name) and x.id.endswith("Statement"):
+                    named.add(x.id)
+                    typed = True
+        if typed:
+            seen.setdefault(item, set()).update(named)
+    for item, classes in want.items():
+        got = seen.get(item, set())
+        chk.ob("R17.10", f"{sc.short}|{item} are not generated when the user's GDEF table has {' / '.join(sorted(classes))}", classes <= got, where(sc), detail=f"discarded under {sorted(got)}",
+               message=f"{sc.short}: '{item}' stay on the to-do list although the user's GDEF table can already define them through {sorted(classes - got)}: generated statements are "
+                       f"appended to the user's table (duplicated / conflicting definitions)")
+    chk.minimum("R17.10", 2)
+
+
 MUTANTS = [
+    M("carets given by contour-point index do not stop caret generation (seeded C17h)", "ufo2ft/featureWriters/gdefFeatureWriter.py", "GdefFeatureWriter.setContext",
+      "isinstance(fea, ast.LigatureCaretByIndexStatement) or isinstance(fea, ast.LigatureCaretByPosStatement)", "isinstance(fea, ast.LigatureCaretByPosStatement)", rule="R17.10"),
     M("generated statements spliced into the user's block at a mid-block marker (seeded C20g shape)", "ufo2ft/featureWriters/baseFeatureWriter.py", "BaseFeatureWriter._insert",
       "block.statements = block.statements[:markerIndex]", "block.statements = block.statements[:markerIndex]\nblock.statements[markerIndex:markerIndex] = feature.statements", rule="R17.9"),
     M("legacy kern writer builds its filtering class without the feature file (mutation scan run 2, k=154)", "ufo2ft/featureWriters/kernFeatureWriter2.py", "make_kerning_lookup",
